@@ -337,3 +337,21 @@ F("PROSE-list-typed-bracket-quoted", ["C17"],
 F("PROSE-unquoted-string-with-str-type-raises", ["C17"],
   "extract_default with declared type `str` passes an unquoted string value to ast.literal_eval and raises ValueError",
   ["NeverRaises"], when={"k": "prose", "typ": "str", "value": "bare", "mode": "read"})
+
+# ------------------------------------------------------------------------------------------------ bodies (C16)
+F("BODY-return-not-last-duplicated", ["C16"],
+  "function/method: the last top-level `return <expr>` is taken as the default return even when other statements follow it; it is "
+  "kept in place and emitted once more at the end",
+  ["Verbatim", "ReturnOnce", "NoneDuplicated"], when={"k": "body", "kind": "function", "ret_not_last": True})
+F("BODY-multiple-returns", ["C16"],
+  "function/method with several top-level `return <expr>` statements: only the last one is treated as the interface's return, the result "
+  "has one more / one fewer return than the source",
+  ["Verbatim", "ReturnOnce", "NoneDuplicated", "NoneDropped"], when={"k": "body", "kind": "function", "multi_ret": True})
+F("BODY-call-rewrites-shadowed-names", ["C16"],
+  "emit.class_(emit_call=True): RewriteName turns every Name spelled like a parameter into self.<name>, including names bound by a nested "
+  "function's own parameters or a comprehension target",
+  ["OnlyParamRefsRewritten"], when={"k": "body", "has_shadow": True})
+F("BODY-argparse-leading-string-expression-dropped", ["C16"],
+  "emit.argparse_function takes a leading string expression of the carried statements for the docstring (already removed by the parser) "
+  "and drops it (and an `argument_parser = ...` assignment after it)",
+  ["Verbatim", "NoneDropped"], when={"k": "body", "kind": "argparse", "first": "strexpr"})
